@@ -924,25 +924,30 @@ class NumaNode(Node):
         if not self.numa_domains:
             return super().find_slot(rr)
 
-        for nd in self.numa_domains.values():
+        # the node level check and debit of `lfs` and `mem` must not interleave
+        # with other callers (the lock is re-entrant and shared with the
+        # numa domains)
+        with self.__lock__:
 
-            # first find `lfs` and `mem` on the node level
-            if self.lfs is not None:
-                if rr.lfs and self.lfs < rr.lfs: return None
-
-            if self.mem is not None:
-                if rr.mem and self.mem < rr.mem: return None
-
-            # then find cores and gpus on the numa domain level
             for nd in self.numa_domains.values():
-                slot = nd.find_slot(rr)
-                if slot:
-                    # lfs and mem are node level resources: the numa domain
-                    # does not account for them, `deallocate_slot` credits
-                    # them back to this node
-                    if self.lfs is not None: self.lfs -= slot.lfs
-                    if self.mem is not None: self.mem -= slot.mem
-                    return slot
+
+                # first find `lfs` and `mem` on the node level
+                if self.lfs is not None:
+                    if rr.lfs and self.lfs < rr.lfs: return None
+
+                if self.mem is not None:
+                    if rr.mem and self.mem < rr.mem: return None
+
+                # then find cores and gpus on the numa domain level
+                for nd in self.numa_domains.values():
+                    slot = nd.find_slot(rr)
+                    if slot:
+                        # lfs and mem are node level resources: the numa
+                        # domain does not account for them, `deallocate_slot`
+                        # credits them back to this node
+                        if self.lfs is not None: self.lfs -= slot.lfs
+                        if self.mem is not None: self.mem -= slot.mem
+                        return slot
 
 # ------------------------------------------------------------------------------
 #
